@@ -314,4 +314,40 @@ theorem constants_pinned :
     ∧ (cellArrays.map Prod.fst).take 2 = [kwCellId, kwTypeId]
     ∧ wArrayComps = [' ', '1', ' '] := by decide
 
+/-! ## the hypotheses are satisfiable: a population with free slots -/
+
+section NonVacuity
+
+def exF : Fmt Nat := ⟨digitsOf, fun _ => true⟩
+def exP : NumSem Nat := ⟨fun s => if s = ['4', '.', '2'] then .value 42 else .value (natOfDigits s), fun _ => true⟩
+
+/-- a tetrahedron kept in 5 node slots and 5 face slots: node slot 1 and face slot 0 are free -/
+def exCell : Cell Nat :=
+  { nodes := [⟨0, 0, 0, true⟩, ⟨9, 9, 9, false⟩, ⟨1, 0, 0, true⟩, ⟨0, 1, 0, true⟩, ⟨0, 0, 1, true⟩]
+    faces := [⟨1, 1, 1, false⟩, ⟨0, 3, 2, true⟩, ⟨0, 2, 4, true⟩, ⟨2, 3, 4, true⟩, ⟨3, 0, 4, true⟩]
+    id := 7, typeId := 2, extra := fun _ => ['0'] }
+
+theorem exValid : Valid exCell := by
+  refine ⟨by decide, ?_⟩
+  intro i n h hu
+  have hi : i < 5 := (List.getElem?_eq_some_iff.1 h).1
+  match i, hi with
+  | 0, _ => simp [exCell] at h; subst h; exact ⟨⟨0, 3, 2, true⟩, by decide, rfl, by decide⟩
+  | 1, _ => simp [exCell] at h; subst h; simp at hu
+  | 2, _ => simp [exCell] at h; subst h; exact ⟨⟨0, 3, 2, true⟩, by decide, rfl, by decide⟩
+  | 3, _ => simp [exCell] at h; subst h; exact ⟨⟨0, 3, 2, true⟩, by decide, rfl, by decide⟩
+  | 4, _ => simp [exCell] at h; subst h; exact ⟨⟨0, 2, 4, true⟩, by decide, rfl, by decide⟩
+
+/-- the free slots are gone and the faces are renumbered 3→2, 2→1, 4→3 -/
+example : (rebase exCell).faces = [⟨0, 2, 1, true⟩, ⟨0, 1, 3, true⟩, ⟨1, 2, 3, true⟩, ⟨2, 0, 3, true⟩] := by decide
+
+set_option maxRecDepth 20000 in
+example : ∃ toks, writeCells exF [exCell, exCell] = .ok toks ∧
+    Vtk.read exP toks = .ok ([exCell, exCell].map (fun c => meshOf id (rebase c)), [2, 2]) :=
+  roundtrip exF exP id [exCell, exCell] (by simp)
+    (by intro c hc; simp at hc; subst hc; exact exValid)
+    (by decide) (by decide) ⟨42, by decide⟩ (by decide) ⟨by decide, by decide, by decide⟩ (by decide)
+
+end NonVacuity
+
 end Simu.C16
